@@ -9,7 +9,7 @@ use std::{
 use std::collections::BTreeSet;
 
 use num_traits::NumOps;
-use num_derive::{FromPrimitive, NumOps, ToPrimitive};
+use num_derive::{FromPrimitive, ToPrimitive};
 use serde::{Deserialize, Serialize};
 use speedy::{Context, Readable, Reader, Writable, Writer};
 use log::error;
@@ -25,13 +25,54 @@ use log::error;
   Eq,
   PartialOrd,
   Ord,
-  NumOps,
   FromPrimitive,
   ToPrimitive,
   Serialize,
   Deserialize,
 )]
 pub struct SequenceNumber(i64);
+
+// Arithmetic for SequenceNumber and FragmentNumber.
+// These numbers arrive from the network, so they can have any value, including
+// the extremes of the value range. Arithmetic must therefore never overflow.
+// We saturate: Any number that a correctly working writer can ever use is
+// far away from the limits, so saturation does not change their arithmetic.
+macro_rules! saturating_num_ops {
+  ($t:ident) => {
+    impl std::ops::Add for $t {
+      type Output = Self;
+      fn add(self, other: Self) -> Self {
+        Self(self.0.saturating_add(other.0))
+      }
+    }
+    impl std::ops::Sub for $t {
+      type Output = Self;
+      fn sub(self, other: Self) -> Self {
+        Self(self.0.saturating_sub(other.0))
+      }
+    }
+    impl std::ops::Mul for $t {
+      type Output = Self;
+      fn mul(self, other: Self) -> Self {
+        Self(self.0.saturating_mul(other.0))
+      }
+    }
+    impl std::ops::Div for $t {
+      type Output = Self;
+      fn div(self, other: Self) -> Self {
+        Self(self.0.checked_div(other.0).unwrap_or(0))
+      }
+    }
+    impl std::ops::Rem for $t {
+      type Output = Self;
+      fn rem(self, other: Self) -> Self {
+        Self(self.0.checked_rem(other.0).unwrap_or(0))
+      }
+    }
+  };
+}
+saturating_num_ops!(SequenceNumber);
+saturating_num_ops!(FragmentNumber);
 
 impl SequenceNumber {
   pub const UNKNOWN: Self = Self((u32::MAX as i64) << 32);
@@ -45,7 +86,7 @@ impl SequenceNumber {
   }
 
   pub const fn plus_1(&self) -> Self {
-    SequenceNumber(self.0 + 1)
+    SequenceNumber(self.0.saturating_add(1))
   }
 
   pub fn next(&self) -> SequenceNumber {
@@ -198,7 +239,6 @@ impl Default for SequenceNumber {
   Eq,
   Readable,
   Writable,
-  NumOps,
   FromPrimitive,
   ToPrimitive,
 )]
